@@ -29,7 +29,7 @@ def cents(rng, lo, hi):
 
 def pick_value(rng, model, op):
     u = rng.rand()
-    if op in ("SetPol", "SetShadow"):
+    if op in ("SetPol", "SetShadow", "Plot"):
         return bool(rng.randint(2))
     if op == "SetSigma":
         return [Fraction(0), Fraction(8), cents(rng, 0, 12)][rng.randint(3)]
@@ -51,7 +51,7 @@ def pick_value(rng, model, op):
     return cents(rng, 0, 2 * hi)
 
 
-COMMON = ["SetPol", "SetShadow", "SetSigma"]
+COMMON = ["SetPol", "SetShadow", "SetSigma", "Plot"]
 OPS = {"general": COMMON, "3gpp1": COMMON, "freespace": COMMON + ["SetN", "SetFc", "SetN", "SetFc", "SetPol"],
        "metis": COMMON + ["SetFc", "SetFc", "SetPol"],
        "hata": COMMON + ["SetFc", "SetHbs", "SetHms", "SetArea", "SetFc", "SetHbs", "SetPol"]}
@@ -97,7 +97,11 @@ def record_one(job):
             v = pick_value(rng, model, op)
             e = {"op": op, "arg": v if isinstance(v, (bool, str)) else fr(v)}
             fe = dict(e, op=op)
-            fe["out"] = c13.apply_setter(model, o, dict(op=op, arg=({"v": fr(v)} if op == "SetFc" else e["arg"])))[1]
+            if op == "Plot":  # argument: does the curve start at distance 0 ?
+                dd = np.concatenate(([0.0] if v else [], 10.0 ** np.linspace(-2, 3, 11)))
+                fe["out"] = {"val": "ok"}.get(c13.outcome_of(lambda: c13.plot_call(o, dd))[0], "raise")
+            else:
+                fe["out"] = c13.apply_setter(model, o, dict(op=op, arg=({"v": fr(v)} if op == "SetFc" else e["arg"])))[1]
             pr = c13.project(model, o)
             post = {"pol": pr["pol"] if isinstance(pr["pol"], bool) else str(pr["pol"]),
                     "shadow": pr["shadow"] if isinstance(pr["shadow"], bool) else str(pr["shadow"])}
@@ -181,6 +185,8 @@ def report(ctx, res):
         if (t["model"] == "freespace" and e["op"] == "SetFc" and c == "parameter fc" and e["out"] == "raise"
                 and e["post"].get("fc") == e["arg"]):
             ctx.finding(c13.FID_FC, what, case)
+        elif e["op"] == "Plot" and e["out"] == "raise" and c == "parameter shadow" and e["post"].get("shadow") is False:
+            ctx.finding(c13.FID_PLOT, what, case)
         elif c == "law QueryPure" and c13.TAG_I8 in str(e.get("why", {}).get("QueryPure", "")):
             ctx.finding(c13.FID_I8, what, case)
         else:
